@@ -15,3 +15,10 @@ def run(ctx, rep):
     from ..rules import more2
     more2.rule_langs_norms(mod, rep)
     more2.rule_gemv_total(mod, rep)
+    more2.rule_cplx_alias(mod, rep)
+    import re
+    from ..rules import more2
+    more2.rule_arg_names(mod, rep, lambda f: re.match(r"sp_[sdcz]|[sdcz]langs$|[sdcz]Copy|[sdcz]CompRow", f.name) is not None, floor=1)
+    from ..rules import more3
+    more3.rule_cursor_step(mod, rep)
+    more3.rule_langs_rows(mod, rep)
